@@ -29,6 +29,7 @@ TRUSTED = ['pathlib / os / json primitives with the crash semantics stated above
 ASSUMPTIONS = ['one concrete example Sid per template (the write / read code only uses the Sid to obtain its path); the stored document and the written pair are symbolic',
                'a kernel or file-system behaviour outside these primitive contracts (e.g. torn renames, lost directory entries after power loss) is outside the proof',
                'the stored document is abstract: an arbitrary mapping with two symbolic entries (first write: absent); the written data is one symbolic pair']
+BOUNDED = ['one concrete example Sid per template; crash points are every prefix of the recorded effect trace of one write (first write / overwrite); sidecar fault classes enumerated (invalid, null, directory, unreadable)']
 EXPLANATION = 'crash-point invariant over the recorded effect trace of the real _write_data, for every template with a path; tolerant read over the sidecar fault classes'
 BUDGET_S = {'quick': 900, 'thorough': 2400}
 
